@@ -63,7 +63,7 @@ def case_strategy(draw, ctx, kinds=("energy", "detector")):
     spec["detectors"].append({"type": "field" if kind == "detector" else draw(st.sampled_from(["energy", "field"])), "name": "det", "exact": draw(st.booleans()),
                               "switch": {}, "lo": dlo, "hi": dhi, "reduce": True, "components": ["Ez"]})
     case = {"scene": spec, "kind": kind, "thr_rank": draw(st.floats(0, 1, allow_nan=False, width=32)),
-            "min_mode": draw(st.sampled_from(["default", "zero", "mid", "after_peak", "after_peak", "after_peak"])),
+            "min_mode": draw(st.sampled_from(["default", "default", "zero", "mid", "after_peak", "after_peak", "after_peak"])),
             "max_mode": draw(st.sampled_from(["default", "mid", "late", "total", "above"])),
             "min_frac": draw(st.floats(0.0625, 0.875, width=32)), "max_frac": draw(st.floats(0.125, 1.0, width=32))}
     if kind == "detector":
@@ -212,7 +212,7 @@ def body(ctx, case):
 
 
 SUBS = [
-    Sub(name="energy_stop", body=body, strategy=lambda ctx: case_strategy(ctx, kinds=("energy",)), quick=8, thorough=320,
+    Sub(name="energy_stop", body=body, strategy=lambda ctx: case_strategy(ctx, kinds=("energy",)), quick=14, thorough=400,
         lanes=("f64", "f32"), f32_fraction=0.4, quick_shards=1,
         rule="EnergyThresholdCondition: predicted stop step from a reference energy trace"),
     # DetectorConvergenceCondition mixes int32/int64 indices in lax.dynamic_slice when jax_enable_x64 is on (an x64-only
